@@ -50,7 +50,7 @@ def sh(cmd, timeout=600, cwd=None, env=None, input=None):
     """Run a command; returns (rc, stdout+stderr). rc=124 on timeout."""
     try:
         p = subprocess.run(cmd, shell=isinstance(cmd, str), cwd=cwd, env=env, input=input,
-                           stdout=subprocess.PIPE, stderr=subprocess.STDOUT, timeout=timeout, text=True)
+                           stdout=subprocess.PIPE, stderr=subprocess.STDOUT, timeout=timeout, text=True, preexec_fn=die_with_parent)
         return p.returncode, p.stdout
     except subprocess.TimeoutExpired as e:
         out = e.stdout if isinstance(e.stdout, str) else (e.stdout or b"").decode("utf8", "replace")
@@ -318,11 +318,15 @@ def build_runner(race=False, module="harness", exe_name="runner"):
 def run_runner(exe, component, cases, timeout=600, env=None):
     """Feed cases (list of dicts) to the runner; returns (list of obs dicts, error-text-or-None)."""
     inp = "".join(json.dumps(c) + "\n" for c in cases)
-    try:
-        p = subprocess.run([exe, component], input=inp, stdout=subprocess.PIPE, stderr=subprocess.PIPE,
-                           timeout=timeout, text=True, env=env)
-    except subprocess.TimeoutExpired:
-        return None, "runner timeout after %ds" % timeout
+    for attempt in range(3):
+        try:
+            p = subprocess.run([exe, component], input=inp, stdout=subprocess.PIPE, stderr=subprocess.PIPE,
+                               timeout=timeout, text=True, env=env, preexec_fn=die_with_parent)
+        except subprocess.TimeoutExpired:
+            return None, "runner timeout after %ds" % timeout
+        if p.returncode != -9:      # SIGKILL comes from outside (the kernel's OOM killer): not a verdict, run again
+            break
+        time.sleep(5 * (attempt + 1))
     obs = []
     for line in p.stdout.split("\n"):
         if line.strip():
@@ -371,13 +375,37 @@ def infer_case_type(checkers, preamble):
     return None
 
 
+def die_with_parent():
+    """preexec_fn: the child gets SIGKILL when this process dies, so a killed check leaves no coqc/runner behind."""
+    try:
+        import ctypes
+        ctypes.CDLL("libc.so.6").prctl(1, 9)      # PR_SET_PDEATHSIG, SIGKILL
+    except Exception:
+        pass
+
+
+SHARD_BYTES = int(os.environ.get('VERIF_SHARD_BYTES', 1200000))
+
+
 def eval_failing_multi(module_imports, cases_terms, checkers, name, shard=None, timeout=900, preamble="", case_type=None):
     """cases_terms: list of Coq terms (one per case); checkers: {label: Coq function case -> bool}
     (true = model agrees). Returns ({label: sorted failing indices}, error-text-or-None).
     Sharded over all cores; each shard is one coqc run evaluating every checker with vm_compute."""
     if shard is None:
         shard = max(6, min(150, -(-len(cases_terms) // NPROC)))
-    shards = [cases_terms[i:i + shard] for i in range(0, len(cases_terms), shard)]
+    # shards are bounded by case count and by source size (coqc's memory grows with the size of the term it
+    # has to parse: ~1 GB per MB of case text), so 16 concurrent shards stay well inside the machine
+    shards, starts, cur, cur_bytes = [], [], [], 0
+    for i, t in enumerate(cases_terms):
+        if cur and (len(cur) >= shard or cur_bytes + len(t) > SHARD_BYTES):
+            shards.append(cur)
+            cur, cur_bytes = [], 0
+        if not cur:
+            starts.append(i)
+        cur.append(t)
+        cur_bytes += len(t)
+    if cur:
+        shards.append(cur)
     d = os.path.join(BUILD, "cases")
     os.makedirs(d, exist_ok=True)
     for f in os.listdir(d):      # drop debugging leftovers of earlier runs
@@ -406,13 +434,17 @@ def eval_failing_multi(module_imports, cases_terms, checkers, name, shard=None, 
         with open(p, "w") as f:
             f.write(src)
         pr = subprocess.Popen(["coqc", "-Q", os.path.join(COQ, "theories"), "Juniper", p], cwd=d,
-                              stdout=subprocess.PIPE, stderr=subprocess.STDOUT, text=True)
+                              stdout=subprocess.PIPE, stderr=subprocess.STDOUT, text=True, preexec_fn=die_with_parent)
         return (k, nm, pr, time.time())
 
-    while idx < len(shards) or running:
+    retried, retry_queue = {}, []
+    while idx < len(shards) or running or retry_queue:
         while idx < len(shards) and len(running) < NPROC:
             running.append(start(idx))
             idx += 1
+        if not running:
+            time.sleep(2)
+            running.append(start(retry_queue.pop(0)))
         k, nm, pr, t0 = running.pop(0)
         try:
             out, _ = pr.communicate(timeout=timeout)
@@ -429,6 +461,12 @@ def eval_failing_multi(module_imports, cases_terms, checkers, name, shard=None, 
             os.remove(os.path.join(d, "." + nm + ".aux"))
         except FileNotFoundError:
             pass
+        if pr.returncode != 0 and (pr.returncode < 0 or "Out of memory" in out or out == "[timeout]") and retried.get(k, 0) < 2:
+            # killed from outside (e.g. the machine ran out of memory while other jobs were running) or starved:
+            # an infrastructure failure, not a verdict; run the shard again on its own once the others are done
+            retried[k] = retried.get(k, 0) + 1
+            retry_queue.append(k)
+            continue
         if pr.returncode != 0:
             err = "coqc failed on shard %d (%s.v kept):\n%s" % (k, nm, out[-3000:])
             continue
@@ -437,7 +475,7 @@ def eval_failing_multi(module_imports, cases_terms, checkers, name, shard=None, 
             if lst is None:
                 err = "cannot parse coqc output: " + out[-500:]
                 continue
-            failing[lab] += [k * shard + i for i in lst]
+            failing[lab] += [starts[k] + i for i in lst]
     return {c: sorted(v) for c, v in failing.items()}, err
 
 
